@@ -26,7 +26,7 @@ def plan(tier, seed):
 
 def thresholds(tier):
   t = {"designs": 120, "elaborations": 1500, "nets_compared": 10000, "designs_with_10_orders": 100, "member_value_comparisons": 5000,
-       "adjacency_comparisons": 1000}
+       "adjacency_comparisons": 1000, "sibling_chain_designs": 80}
   if tier == "thorough":
     t = {k: v * 12 for k, v in t.items()}
   return t
@@ -187,7 +187,80 @@ def run_case(sh, case):
                "multi_member_nets": len(exp)})
 
 
+def gen_chain(rng):
+  """N sibling instances of ONE class; each ties a slice of an own port to its own output (a net member inside the writer's
+  component), the parent passes that output on into a slice of the next sibling's input (a member beside the writer) - at the
+  top or one / two levels down.  -> source, dict(n, w, a, b, depth)"""
+  W = rng.choice([8, 12, 16]); a = rng.randrange(0, W - 2); b = rng.randrange(a + 1, W + 1 if a else W)
+  n = rng.randrange(2, 5); w2 = b - a; depth = rng.choice([0, 0, 1, 2])
+  inner = rng.choice(["dbg-slice", "dbg-slice", "wire-slice", "none"])
+  L = ["from pymtl3 import *", "class PE(Component):", "  def construct(s):",
+       f"    s.in_ = InPort({W}); s.out = OutPort({w2}); s.dbg = OutPort({W}); s.aux = Wire({W})",
+       "    @update", "    def up():", f"      s.out @= s.in_[{a}:{b}] + 1"]
+  if inner == "dbg-slice": L.append(f"    s.dbg[{a}:{b}] //= s.out")
+  else: L.append(f"    s.dbg[{a}:{b}] //= 0")
+  if a: L.append(f"    s.dbg[0:{a}] //= 0")
+  if b < W: L.append(f"    s.dbg[{b}:{W}] //= 0")
+  if inner == "wire-slice": L += [f"    s.aux[{a}:{b}] //= s.out"] + ([f"    s.aux[0:{a}] //= 0"] if a else []) + ([f"    s.aux[{b}:{W}] //= 0"] if b < W else [])
+  else: L.append("    s.aux //= 0")
+  L += ["class Row(Component):", "  def construct(s):", f"    s.in_ = InPort({W}); s.out = OutPort({W}); s.last = OutPort({w2})",
+        f"    s.pe = [PE() for _ in range({n})]"]
+  conns = ["s.pe[0].in_ //= s.in_"]
+  for i in range(n - 1):
+    conns.append(f"s.pe[{i + 1}].in_[{a}:{b}] //= s.pe[{i}].out" if rng.random() < 0.7 else f"connect(s.pe[{i}].out, s.pe[{i + 1}].in_[{a}:{b}])")
+    if a: conns.append(f"s.pe[{i + 1}].in_[0:{a}] //= s.in_[0:{a}]")
+    if b < W: conns.append(f"s.pe[{i + 1}].in_[{b}:{W}] //= s.in_[{b}:{W}]")
+  conns += [f"s.out //= s.pe[{n - 1}].dbg", f"s.last //= s.pe[{n - 1}].out"]
+  rng.shuffle(conns)
+  L += ["    " + c for c in conns]
+  prev = "Row"
+  for d in range(depth):
+    L += [f"class Wrap{d}(Component):", "  def construct(s):", f"    s.in_ = InPort({W}); s.out = OutPort({W}); s.last = OutPort({w2})",
+          f"    s.r = {prev}()", "    s.r.in_ //= s.in_; s.out //= s.r.out; s.last //= s.r.last"]
+    prev = f"Wrap{d}"
+  L += [f"CTop = {prev}"]
+  return "\n".join(L) + "\n", {"n": n, "W": W, "a": a, "b": b, "depth": depth, "inner_member": inner}
+
+
+def run_chain(sh, case):
+  rng = sh.rng("chain", case)
+  src, info = gen_chain(rng)
+  mod = G.load_source(src, "c08chain")
+  try:
+    for mode in ("default", "mamba"):
+      top = mod.CTop()
+      try:
+        M.apply_mode(top, mode, rng)
+      except Exception as e:
+        sh.violation("legal-sibling-chain-design-could-not-be-built", dict(info, mode=mode, error=f"{type(e).__name__}: {str(e)[:300]}", design_source=src), case=("chain", case)); return
+      row = top
+      for _ in range(info["depth"]): row = row.r
+      n, W, a, b = info["n"], info["W"], info["a"], info["b"]; w2 = b - a
+      for _ in range(4):
+        x = rng.getrandbits(W)
+        top.in_ @= x; top.sim_eval_combinational()
+        v = (x >> a) & ((1 << w2) - 1)
+        for i in range(n):
+          exp_in = x if i == 0 else (x & ~(((1 << w2) - 1) << a)) | (v << a)
+          v = (((exp_in >> a) & ((1 << w2) - 1)) + 1) & ((1 << w2) - 1)
+          sh.count("sibling_chain_value_comparisons", 3)
+          got = (int(row.pe[i].in_), int(row.pe[i].out), int(row.pe[i].dbg))
+          want = (exp_in, v, (v << a) if info["inner_member"] == "dbg-slice" else 0)
+          if got != want:
+            sh.violation("net-member-differs-from-writer-in-simulation", dict(info, mode=mode, element=f"pe[{i}]", input=hex(x), got_in_out_dbg=[hex(g) for g in got],
+                         expected_in_out_dbg=[hex(g) for g in want], top_in_reads_back=hex(int(top.in_)), design_source=src), case=("chain", case)); return
+        if int(top.last) != v or int(top.in_) != x:
+          sh.violation("net-member-differs-from-writer-in-simulation", dict(info, mode=mode, element="top", input=hex(x), got_last=hex(int(top.last)), expected_last=hex(v),
+                       top_in_reads_back=hex(int(top.in_)), design_source=src), case=("chain", case)); return
+        top.sim_tick()
+    sh.count("sibling_chain_designs"); sh.fp("chain", tuple(sorted(info.items())))
+  finally:
+    G.unload(mod)
+
+
 def run_shard(sh):
+  for case in range(6 if sh.tier == "quick" else 60):
+    run_chain(sh, sh.idx * 1000 + case)
   for case in range(sh.params["designs"]):
     if sh.only is not None and str(case) != str(sh.only).strip('"'):
       continue
